@@ -140,3 +140,43 @@ def valuations(leaves: Sequence[str], consistent: Optional[Callable[[Dict[str, b
         v = dict(zip(leaves, bits))
         if consistent is None or consistent(v):
             yield v
+
+
+def value_on_path(path: Sequence[Node], upto: int, e: ast.AST, depth: int = 4) -> ast.AST:
+    """``e`` with every local name replaced by the value last assigned to it on ``path[:upto]`` (plain ``name = value``
+    assignments only; names bound otherwise -- parameters, loop targets, tuple unpacking, awaited values -- stay)."""
+    import copy
+    if depth == 0:
+        return e
+
+    def last_assignment(name: str, before: int):
+        for i in range(before - 1, -1, -1):
+            a = path[i].ast
+            if path[i].kind == 'stmt' and isinstance(a, (ast.Assign, ast.AnnAssign)):
+                tg = a.targets if isinstance(a, ast.Assign) else [a.target]
+                if len(tg) == 1 and isinstance(tg[0], ast.Name) and tg[0].id == name and a.value is not None:
+                    if any(isinstance(x, (ast.Await, ast.Yield, ast.YieldFrom)) for x in ast.walk(a.value)):
+                        return None
+                    return i, a.value
+                if any(isinstance(x, ast.Name) and x.id == name and isinstance(x.ctx, ast.Store) for t in tg for x in ast.walk(t)):
+                    return None
+            elif path[i].kind in ('iter', 'except', 'with'):
+                tgt = getattr(a, 'target', None) or getattr(a, 'name', None)
+                names = {x.id for x in ast.walk(tgt) if isinstance(x, ast.Name)} if isinstance(tgt, ast.AST) else ({tgt} if isinstance(tgt, str) else set())
+                if name in names:
+                    return None
+        return None
+
+    class T(ast.NodeTransformer):
+        def visit_Name(self, node: ast.Name):
+            if isinstance(node.ctx, ast.Load):
+                la = last_assignment(node.id, upto)
+                if la is not None:
+                    i, v = la
+                    return value_on_path(path, i, copy.deepcopy(v), depth - 1)
+            return node
+
+        def visit_Lambda(self, node):
+            return node
+
+    return T().visit(copy.deepcopy(e))
